@@ -145,6 +145,9 @@ NEEDS = {
  "C17-l1": ("exponent negation checked, the following addition not", "exponent -(2^127-1) with a fraction digit: panic in builds with overflow checks"),
  "C17-l2": ("json_num_option swallows the parse error", "valid JSON number whose scale overflows i64, Option adapter: None instead of an error"),
  "C17-l3": ("json_num writes {int}e{scale} for non-human-readable serializers (missing negation)", "json_num through a serializer with is_human_readable() == false"),
+ "C12-l1": ("Mul shortcut: when the left operand is one, `self` is returned instead of `rhs`", "an intermediate Newton iterate exactly equal to 1.000 while 1/x is 1-20% away: a handful of short operands (0.9867, 0.93450..0.93456 at p=3; 0.93456 at p=4) and solved-for long ones"),
+ "C12-l2": ("early exit when the rounding of the iterate carried to 10^j", "an intermediate iterate rounding up to 10^j (985209..985214 at p=4, solved-for long operands)"),
+ "C12-l3": ("operand order swapped in the Newton step + reference Mul returns self.normalized() when the left is one (two sites)", "an intermediate iterate exactly equal to one"),
 }
 OUT_OF_SCOPE = {"C04-j3"}
 def sh(cmd, **kw):
